@@ -177,6 +177,18 @@ def recipes():
     for vname, fam, kind, ctor in extra:
         if fam in F.FAMILIES:
             out[vname] = Recipe(vname, fam, kind, 2, ctor)
+    # the optional constructor arguments at non-default values (user-supplied initial widths that are
+    # not proportional to the prior widths, target rates, decay, maximum covariance, shuffle rates):
+    # what a reset restores and what a state carries must be what THIS object was built with
+    for name in sorted(F.FAMILIES):
+        cls, kind, lo, hi = F.FAMILIES[name]
+        n = max(lo, 2) if hi >= 2 else lo
+        for oseed in (1, 2):
+            if F.optional_kwargs(name, ['a'] * n, oseed):
+                out['%s/optional-args-%d' % (name, oseed)] = Recipe(
+                    '%s/optional-args-%d' % (name, oseed), name, kind, n,
+                    (lambda fam_, os_: (lambda ps, d, r, T, k, s: F.make(fam_, ps, d, r, jump_interval=k, window=T,
+                                                                         start_step=s, optional=os_)))(name, oseed))
     return out
 
 
